@@ -8,6 +8,7 @@
 #include <poll.h>
 #include <string.h>
 #include <sys/socket.h>
+#include <time.h>
 #include <unistd.h>
 
 int vnet_is_v6(const char *ip) { return strchr(ip, ':') != NULL; }
@@ -98,4 +99,29 @@ void vnet_noanswer_close(struct vnet_noanswer *na)
     for (int i = 0; i < na->ncfd; i++) close(na->cfd[i]);
     if (na->lfd >= 0) close(na->lfd);
     na->ncfd = 0; na->lfd = -1;
+}
+
+static int sa_port(const struct sockaddr_storage *o)
+{ return ntohs(o->ss_family == AF_INET ? ((const struct sockaddr_in *)o)->sin_port : ((const struct sockaddr_in6 *)o)->sin6_port); }
+
+int vnet_accept_peer(int lfd, int local_fd, int timeout_ms, int *strays)
+{
+    struct timespec t0; clock_gettime(CLOCK_MONOTONIC, &t0);
+    for (;;) {
+        struct timespec t1; clock_gettime(CLOCK_MONOTONIC, &t1);
+        long el = (t1.tv_sec - t0.tv_sec) * 1000 + (t1.tv_nsec - t0.tv_nsec) / 1000000;
+        if (el >= timeout_ms) return -1;
+        struct pollfd p = { .fd = lfd, .events = POLLIN };
+        if (vs_real_poll(&p, 1, (int)(timeout_ms - el) > 50 ? 50 : (int)(timeout_ms - el)) <= 0) continue;
+        int fd = accept(lfd, NULL, NULL);
+        if (fd < 0) continue;
+        if (local_fd >= 0) {
+            struct sockaddr_storage pa, la; socklen_t pl = sizeof pa, ll = sizeof la;
+            if (getpeername(fd, (struct sockaddr *)&pa, &pl) == 0 && getsockname(local_fd, (struct sockaddr *)&la, &ll) == 0 && sa_port(&pa) != sa_port(&la)) {
+                if (strays) (*strays)++;
+                close(fd); continue;
+            }
+        }
+        return fd;
+    }
 }
